@@ -1,0 +1,152 @@
+//go:build verif
+
+package ecscache
+
+import (
+	"fmt"
+	"net/netip"
+	"time"
+
+	"github.com/AdguardTeam/AdGuardDNS/internal/agdcache"
+	"github.com/AdguardTeam/AdGuardDNS/internal/dnsmsg"
+	"github.com/AdguardTeam/golibs/errors"
+	"github.com/bluele/gcache"
+	"github.com/miekg/dns"
+)
+
+// verifC04Clock is a [gcache.Clock] that runs offset() ahead of the real one.
+type verifC04Clock struct {
+	offset func() (d time.Duration)
+}
+
+// Now implements the [gcache.Clock] interface for verifC04Clock.
+func (c verifC04Clock) Now() (now time.Time) { return time.Now().Add(c.offset()) }
+
+// verifC04Cache is the same thin adaptor over an LRU gcache as [agdcache.LRU],
+// but the inner cache uses the shifted clock for its expiry decisions.  Items
+// store the real time of insertion, so Get returns a copy whose stamp is moved
+// back by the amount the shifted clock has advanced since the insertion.
+type verifC04Cache struct {
+	cache  gcache.Cache
+	offset func() (d time.Duration)
+	ins    map[uint64]time.Duration
+}
+
+// type check
+var _ agdcache.Interface[uint64, *cacheItem] = (*verifC04Cache)(nil)
+
+// Set implements the [agdcache.Interface] interface for *verifC04Cache.
+func (c *verifC04Cache) Set(key uint64, val *cacheItem) {
+	c.ins[key] = c.offset()
+	err := c.cache.Set(key, val)
+	if err != nil {
+		panic(fmt.Errorf("verifc04: setting cache item: %w", err))
+	}
+}
+
+// SetWithExpire implements the [agdcache.Interface] interface for
+// *verifC04Cache.
+func (c *verifC04Cache) SetWithExpire(key uint64, val *cacheItem, exp time.Duration) {
+	c.ins[key] = c.offset()
+	err := c.cache.SetWithExpire(key, val, exp)
+	if err != nil {
+		panic(fmt.Errorf("verifc04: setting cache item with expiration: %w", err))
+	}
+}
+
+// Get implements the [agdcache.Interface] interface for *verifC04Cache.
+func (c *verifC04Cache) Get(key uint64) (val *cacheItem, ok bool) {
+	v, err := c.cache.Get(key)
+	if err != nil {
+		if !errors.Is(err, gcache.KeyNotFoundError) {
+			panic(fmt.Errorf("verifc04: getting cache item: %w", err))
+		}
+
+		return nil, false
+	}
+
+	item, ok := v.(*cacheItem)
+	if !ok || item == nil {
+		return nil, ok
+	}
+
+	shifted := *item
+	shifted.when = item.when.Add(-(c.offset() - c.ins[key]))
+
+	return &shifted, true
+}
+
+// Clear implements the [agdcache.Interface] interface for *verifC04Cache.
+func (c *verifC04Cache) Clear() { c.cache.Purge() }
+
+// Len implements the [agdcache.Interface] interface for *verifC04Cache.
+func (c *verifC04Cache) Len() (n int) { return c.cache.Len(false) }
+
+// VerifC04NewMiddleware is [NewMiddleware] with a clock that runs offset()
+// ahead of the real clock, both for the expiry of the two LRU caches and for
+// the age of the cached items.
+func VerifC04NewMiddleware(c *MiddlewareConfig, offset func() (d time.Duration)) (mw *Middleware) {
+	mw = NewMiddleware(c)
+	clk := verifC04Clock{offset: offset}
+	mw.cache = &verifC04Cache{
+		cache:  gcache.New(c.NoECSCount).LRU().Clock(clk).Build(),
+		offset: offset,
+		ins:    map[uint64]time.Duration{},
+	}
+	mw.ecsCache = &verifC04Cache{
+		cache:  gcache.New(c.ECSCount).LRU().Clock(clk).Build(),
+		offset: offset,
+		ins:    map[uint64]time.Duration{},
+	}
+
+	return mw
+}
+
+// VerifC04Key is the input of toCacheKey.
+type VerifC04Key struct {
+	Host          string
+	Subnet        netip.Prefix
+	QType         uint16
+	QClass        uint16
+	ReqDO         bool
+	IsECSDeclined bool
+}
+
+func (k *VerifC04Key) cr() (cr *cacheRequest) {
+	return &cacheRequest{
+		host:          k.Host,
+		subnet:        k.Subnet,
+		qType:         k.QType,
+		qClass:        k.QClass,
+		reqDO:         k.ReqDO,
+		isECSDeclined: k.IsECSDeclined,
+	}
+}
+
+// VerifC04ToCacheKey exports toCacheKey.
+func VerifC04ToCacheKey(mw *Middleware, k *VerifC04Key, respIsECSDependent bool) (key uint64) {
+	return mw.toCacheKey(k.cr(), respIsECSDependent)
+}
+
+// VerifC04Evict removes the entries stored under the keys of k from both
+// caches, as a capacity eviction could.
+func VerifC04Evict(mw *Middleware, k *VerifC04Key) {
+	mw.cache.(*verifC04Cache).cache.Remove(mw.toCacheKey(k.cr(), false))
+	mw.ecsCache.(*verifC04Cache).cache.Remove(mw.toCacheKey(k.cr(), true))
+}
+
+// VerifC04FromCacheItem calls fromCacheItem for an item holding msg that was
+// cached age ago.
+func VerifC04FromCacheItem(msg, req *dns.Msg, reqDO bool, age time.Duration) (resp *dns.Msg) {
+	item := &cacheItem{msg: msg, when: time.Now().Add(-age)}
+
+	return fromCacheItem(item, dnsmsg.NewCloner(dnsmsg.EmptyClonerStat{}), req, reqDO)
+}
+
+// VerifC04IsCacheable exports isCacheable.
+func VerifC04IsCacheable(msg *dns.Msg) (ok bool) { return isCacheable(msg) }
+
+// VerifC04RmHopToHopData exports rmHopToHopData.
+func VerifC04RmHopToHopData(resp *dns.Msg, qt dnsmsg.RRType, reqDO bool) {
+	rmHopToHopData(resp, qt, reqDO)
+}
